@@ -123,32 +123,26 @@ def _symint(x):
     return SymInt(z3.BitVecVal(int(x), core.ENG.W), int(x), int(x))
 
 
-def tdiv(a, b):
-    """quotient truncated toward zero (b == 0: arbitrary value, the caller flags it)"""
-    if not any_sym(a, b):
-        if b == 0:
-            return 0
-        q = abs(a) // abs(b)
-        return q if (a < 0) == (b < 0) else -q
-    a, b = _symint(a), _symint(b)
-    m = max(abs(a.lo), abs(a.hi))
-    if a.lo >= 0 and b.lo >= 0:
-        return core._mk(z3.UDiv(a.e, b.e), a.lo // max(b.hi, 1), a.hi // max(b.lo, 1))
-    return core._mk(a.e / b.e, -m, m)       # bvsdiv: truncating
-
-
-def trem(a, b):
-    """remainder with the sign of the dividend: a - tdiv(a,b)*b"""
-    if not any_sym(a, b):
-        if b == 0:
-            return 0
-        r = abs(a) % abs(b)
-        return r if a >= 0 else -r
-    a, b = _symint(a), _symint(b)
-    mb = max(abs(b.lo), abs(b.hi))
-    if a.lo >= 0 and b.lo >= 0:
-        return core._mk(z3.URem(a.e, b.e), 0, min(a.hi, max(b.hi, 1) - 1))
-    return core._mk(z3.SRem(a.e, b.e), -mb, mb)
+def tdivrem(a, b):
+    """(a / b truncated toward zero, a % b with the sign of the dividend, 'floor and truncation differ').
+    Defined from floor division (Python's // and %, which is also what the engine provides):
+        trunc(a/b) = floor(a/b) + 1  and  rem = mod - b   iff  the floor remainder is non-zero and a, b have opposite signs
+        trunc(a/b) = floor(a/b)      and  rem = mod        otherwise
+    For b == 0 the result is arbitrary (computed with divisor 1); the caller flags it as undefined."""
+    z = b == 0
+    if type(b) is SymInt:
+        b1 = ite(z, 1, b)
+        if b.lo >= 0:
+            b1 = _bounded(b1, 1, max(b.hi, 1))
+        elif b.hi <= 0:
+            b1 = _bounded(b1, b.lo, -1) if b.lo < 0 else 1
+        b = b1
+    elif z:
+        b = 1
+    qf = a // b
+    rf = a % b
+    differs = sym_and(rf != 0, (a < 0) != (b < 0))
+    return ite(differs, qf + 1, qf), ite(differs, rf - b, rf), differs
 
 
 def _bounded(x, lo, hi):
@@ -202,8 +196,11 @@ class Eval:
         if type(v) is SymInt:
             if v.lo >= lo and v.hi <= hi:
                 return v, False
-            r = (v - lo) % (1 << n) + lo
-            return r, sym_or(v < lo, v > hi)
+            changed = sym_or(v < lo, v > hi)
+            # value kept where representable, reduced modulo 2**N elsewhere (written as an if-then-else so that
+            # "nothing was reduced" makes the result literally the operand)
+            r = _bounded(ite(changed, (v - lo) % (1 << n) + lo, v), lo, hi)
+            return r, changed
         r = (v - lo) % (1 << n) + lo
         return r, r != v
 
@@ -247,7 +244,7 @@ class Eval:
             v = self.conv(v, p, g)
             if dm.signed(p):
                 return -v - 1, p                     # always representable (two's complement)
-            return dm.hi(p) - v, p
+            return self._arith(-v - 1, p, g), p      # all bits flipped = (-v - 1) reduced modulo 2**N
         if k == "lnot":
             v, _ = self.ev(e[1], g)
             return _int(sym_not(_truth(v))), "int"
@@ -305,13 +302,10 @@ class Eval:
                 ov = sym_and(a == dm.lo(t), b == -1)
                 self._flag("overflow", g, ov)
                 self._undef(g, ov)
-            r = trem(a, b)
-            # floor and truncation differ iff the remainder is non-zero and dividend and divisor have opposite
-            # signs; the truncated remainder r carries the sign of the dividend
-            self._flag("floordiv", g, sym_and(sym_not(z), r != 0, (r < 0) != (b < 0)))
+            q, r, differs = tdivrem(a, b)
+            self._flag("floordiv", g, sym_and(sym_not(z), differs))
             if k == "mod":
                 return r, t
-            q = tdiv(a, b)
             if dm.signed(t):
                 q, _ = self._reduce(q, t)
             return q, t
@@ -345,6 +339,27 @@ def to_bytes(dm, v, t):
     if not dm.little_endian:
         bs.reverse()
     return bs
+
+
+def repr_eq(dm, bs, v, t):
+    """do the bytes bs form the object representation of value v (in range of t) of integer type t?
+    Symbolically this is ONE equation between 8*size-bit vectors (concatenation of the bytes against the low
+    bits of v), which keeps the solver's normal forms of both sides aligned; concretely a list comparison."""
+    n = dm.size(t)
+    bs = list(bs)
+    if len(bs) != n or any(isinstance(b, tuple) for b in bs):
+        return False
+    if not any_sym(v, *bs):
+        return bs == to_bytes(dm, v, t)
+    lsb_first = bs if dm.little_endian else bs[::-1]
+    in_range = sym_and(*[sym_and(b >= 0, b <= 255) for b in lsb_first])
+    parts = [core.to_bv(b, 8) for b in reversed(lsb_first)]
+    got = z3.Concat(*parts) if n > 1 else parts[0]
+    whole = sym_and(in_range, SymBool(got == core.to_bv(v, 8 * n)))
+    # the same statement byte by byte; offering both (equivalent) forms lets the solver refute whichever
+    # negation its normal forms make easy
+    bytewise = sym_and(*[a == b for a, b in zip(bs, to_bytes(dm, v, t))])
+    return sym_or(bytewise, whole)
 
 
 # -- expression descriptors ---------------------------------------------------------------------------
